@@ -192,13 +192,22 @@ SOURCE_BASENAMES = {'coords.xyz', 'data.txt', 'data2.txt', 'vasprun.xml', 'top.g
 _DATASET_DIR = __import__('re').compile(r'^d\d+$')
 
 
+ROOT = None  # run directory; set by SimFS so that paths are judged by where they are, whatever the current directory is
+
+
 def is_cache(path: str) -> bool:
     """Is this one of the files the code under test keeps next to the simulation sources (i.e. a cache, a temp file
     of a cache, ...)?  Decided by *where* it is, not by its name: any file inside a dataset directory of the run (or
     a harness-chosen save_*.cache) that is neither a source file the harness wrote nor a dot-file (MDAnalysis offsets)."""
-    path = os.path.normpath(path)
-    if os.path.isabs(path):
-        return False
+    if ROOT is not None:
+        ap = os.path.normpath(os.path.join(os.getcwd(), path)) if not os.path.isabs(path) else os.path.normpath(path)
+        if ap != ROOT and not ap.startswith(ROOT + os.sep):
+            return False
+        path = os.path.relpath(ap, ROOT)
+    else:
+        path = os.path.normpath(path)
+        if os.path.isabs(path):
+            return False
     parts = path.split(os.sep)
     base = parts[-1]
     if base.startswith('.'):
@@ -210,10 +219,20 @@ def is_cache(path: str) -> bool:
     return base not in SOURCE_BASENAMES
 
 
+def rootrel(path: str) -> str:
+    """Path relative to the run directory (so that records do not depend on the current directory of the moment)."""
+    if ROOT is None:
+        return os.path.normpath(path)
+    ap = os.path.normpath(os.path.join(os.getcwd(), path)) if not os.path.isabs(path) else os.path.normpath(path)
+    return os.path.relpath(ap, ROOT) if (ap == ROOT or ap.startswith(ROOT + os.sep)) else ap
+
+
 class SimFS:
     """Owns the open() seam for one run."""
 
-    def __init__(self, real_exit: bool = False):
+    def __init__(self, real_exit: bool = False, root: str | None = None):
+        global ROOT
+        ROOT = os.path.realpath(root) if root else os.path.realpath(os.getcwd())
         self.real_exit = real_exit  # crash_write really kills the process (os._exit) instead of raising SimCrash
         self.armed: dict | None = None  # at most one armed fault at a time
         self.fired: list[str] = []
@@ -259,7 +278,7 @@ class SimFS:
             p = p.decode() if isinstance(p, bytes) else p
             if dir_fd is None and is_cache(p):
                 acc = flags & (os.O_WRONLY | os.O_RDWR)
-                self.log.append((p, 'os.open:' + ('w' if acc else 'r')))
+                self.log.append((rootrel(p), 'os.open:' + ('w' if acc else 'r')))
                 if acc:
                     self.raw_fds[fd] = [p, 0]
                     self.op_write_opens = getattr(self, 'op_write_opens', 0) + 1
@@ -311,7 +330,7 @@ class SimFS:
         path = os.fspath(file)
         if isinstance(path, bytes):
             path = path.decode()
-        self.log.append((path, mode))
+        self.log.append((rootrel(path), mode))
         if not is_cache(path) or 'b' not in mode:
             return REAL_OPEN(file, mode, *args, **kwargs)
         f = self.armed
